@@ -8,6 +8,10 @@ Model of the two line-based input-template editors (C19):
 
 (the CP2K section-tree editor lives in Model/TemplateCp2k.lean).
 
+`modifyInput` / `writeForRun` mirror the code as it is NOW, i.e. after the repairs eaf64e1
+(`_modify_input`) and f746fff (`write_for_run`) in /repo; the definitions with suffix `AsIs`
+mirror the code before these repairs and are kept as the record of the two findings.
+
 Text is `List Char` (`Str`), a file is one `Str`; Python's text-mode line iteration is
 `linesKeep` (split after every '\n', terminators kept; assumption: no '\r' in the templates,
 so universal-newline translation is the identity).  `str.strip/split` are modelled for the
